@@ -45,6 +45,11 @@ func (m c12) Run(ctx *core.Ctx) {
 			start = gen.Pick(r, []string{"http://h/?", "a://h/?", "a:p?"}) + gen.QueryString(r)
 		}
 		cs := &core.Case{Check: "interleaving", Input: core.S(start), N: r.IntN(2)}
+		if r.IntN(5) == 0 {
+			// derived start (see Exec): "clone" / "clone+sp" / "ref:<reference>" / "ref+sp:<reference>"
+			ref := gen.Pick(r, []string{"", "#f", "?x=1&y=2", "?", "p", "../q?a=1", "?" + gen.QueryString(r), "//h2/p?k=v"})
+			cs.Alt = core.S(gen.Pick(r, []string{"clone", "clone+sp", "ref:" + ref, "ref+sp:" + ref, "ref+sp:" + ref}))
+		}
 		if r.IntN(4) == 0 {
 			cs.Config = []string{gen.Pick(r, []string{"allownonbasepath", "skipequals", "lax", "singlepercent", "report"})}
 			if r.IntN(2) == 0 {
@@ -137,6 +142,88 @@ func implSerializeWith(p url.Parser, kind string, pairs []refmodel.Pair) string 
 	return sp.String()
 }
 
+// c12CheckHandles: every handle must describe `expected` (the urlencoded parse of the URL's
+// current query).  Three groups of reads per handle, in a per-case order, and inside a group
+// the methods in a per-case order: whichever method a caller happens to use FIRST must already
+// answer for the current query (a lazily refreshed list that one method forgets to refresh is
+// healed by any other read).  Returns true when a violation was reported.
+func c12CheckHandles(ctx *core.Ctx, u *url.Url, handles []*url.SearchParams, expected []refmodel.Pair, seenNames map[string]bool, wantStr, where string, hsh uint64) bool {
+	inNew := map[string]bool{}
+	for _, p := range expected {
+		inNew[p.Name] = true
+	}
+	var absent []string
+	for name := range seenNames {
+		if !inNew[name] && !strings.ContainsRune(refmodel.Scalar(name), 0xFFFD) {
+			absent = append(absent, name)
+		}
+	}
+	sort.Strings(absent)
+	groupAbsent := func(h *url.SearchParams, k int) bool {
+		for _, name := range absent {
+			var has bool
+			var get string
+			var all []string
+			for j := 0; j < 3; j++ {
+				switch (j + int(hsh>>20)) % 3 {
+				case 0:
+					has = h.Has(name)
+				case 1:
+					get = h.Get(name)
+				case 2:
+					all = h.GetAll(name)
+				}
+			}
+			if has || get != "" || len(all) != 0 {
+				ctx.Violate("a handle answers for a name that is not in the URL's query", "Has=false", fmt.Sprintf("Has(%q)=%v Get=%q GetAll=%q", name, has, get, all), fmt.Sprintf("%s (handle %d, query %q)", where, k, u.Query()))
+				return true
+			}
+		}
+		return false
+	}
+	groupString := func(h *url.SearchParams, k int) bool {
+		if got := h.String(); got != wantStr {
+			ctx.Violate("a SearchParams handle does not equal the urlencoded parse of the URL's query", wantStr, got,
+				fmt.Sprintf("%s (handle %d of %d, query %q)", where, k, len(handles), u.Query()))
+			return true
+		}
+		return false
+	}
+	groupNames := func(h *url.SearchParams, k int) bool {
+		for _, p := range expected {
+			if strings.ContainsRune(p.Name, 0xFFFD) {
+				continue
+			}
+			var all []string
+			var has bool
+			if (hsh>>24)&1 == 0 {
+				all, has = h.GetAll(p.Name), h.Has(p.Name)
+			} else {
+				has = h.Has(p.Name)
+				all = h.GetAll(p.Name)
+			}
+			wantAll := (&refmodel.List{Pairs: expected}).GetAll(p.Name)
+			for j := range all {
+				all[j] = refmodel.Scalar(all[j])
+			}
+			if strings.Join(all, "\x00") != strings.Join(wantAll, "\x00") || !has {
+				ctx.Violate("GetAll/Has of a handle disagree with the urlencoded parse of the URL's query", fmt.Sprint(wantAll), fmt.Sprintf("GetAll=%q Has=%v", all, has), fmt.Sprintf("%s name %q (handle %d)", where, p.Name, k))
+				return true
+			}
+		}
+		return false
+	}
+	groups := []func(*url.SearchParams, int) bool{groupAbsent, groupString, groupNames}
+	for k, h := range handles {
+		for _, g := range [][3]int{{0, 1, 2}, {1, 2, 0}, {2, 0, 1}, {0, 2, 1}, {2, 1, 0}, {1, 0, 2}}[(hsh>>16)%6] {
+			if groups[g](h, k) {
+				return true
+			}
+		}
+	}
+	return false
+}
+
 func (c12) Exec(ctx *core.Ctx, cs *core.Case) {
 	input := string(cs.Input)
 	var parser url.Parser
@@ -148,7 +235,31 @@ func (c12) Exec(ctx *core.Ctx, cs *core.Case) {
 		ctx.Count("start_rejected")
 		return
 	}
+	hsh := cs.Hash()
 	seenNames := map[string]bool{}
+	interesting := false
+	if alt := string(cs.Alt); alt != "" {
+		// derived start: the URL under test is a clone of, or a resolution against, the parsed
+		// URL - whose own SearchParams may have been fetched (and looked at) before
+		b := u
+		var derr error
+		if pan := ctx.Call(len(alt)+len(input)+256, func() {
+			if strings.Contains(alt, "sp") {
+				sp := b.SearchParams()
+				_ = sp.Has("a")
+			}
+			if strings.HasPrefix(alt, "clone") {
+				u = b.Clone()
+			} else {
+				u, derr = b.Parse(strings.TrimPrefix(alt[strings.IndexByte(alt, ':')+1:], ""))
+			}
+		}); pan != nil || derr != nil || u == nil {
+			ctx.Count("derived_start_rejected")
+			return
+		}
+		ctx.Count("derived_starts")
+		interesting = true
+	}
 	var handles []*url.SearchParams
 	if cs.N == 1 {
 		handles = append(handles, u.SearchParams()) // a handle obtained before anything else
@@ -157,8 +268,17 @@ func (c12) Exec(ctx *core.Ctx, cs *core.Case) {
 	if !u.IsSpecialScheme() {
 		kind = "a://h/"
 	}
-	interesting := false
-	hsh := cs.Hash()
+	if (hsh>>28)%2 == 0 || len(cs.Ops) == 0 {
+		// the list a URL starts with is the urlencoded parse of its query, however the URL was obtained
+		if len(handles) == 0 {
+			handles = append(handles, u.SearchParams())
+		}
+		expected := refmodel.ParseURLEncoded(u.Query())
+		ctx.Count("initial_checks")
+		if c12CheckHandles(ctx, u, handles, expected, map[string]bool{"a": true, "zz": true}, implSerializeWith(parser, kind, expected), "at the start", hsh) {
+			return
+		}
+	}
 	quiet := hsh%3 == 0
 	if quiet {
 		ctx.Count("quiet_cases")
@@ -283,87 +403,12 @@ func (c12) Exec(ctx *core.Ctx, cs *core.Case) {
 				continue
 			}
 			expected := refmodel.ParseURLEncoded(u.Query())
-			inNew := map[string]bool{}
-			for _, p := range expected {
-				inNew[p.Name] = true
-			}
 			if v == "" && (u.Query() != "" || len(expected) != 0) {
 				ctx.Violate("SetSearch(\"\") left a query", "", u.Query(), where)
 				return
 			}
-			var absent []string
-			for name := range seenNames {
-				if !inNew[name] && !strings.ContainsRune(refmodel.Scalar(name), 0xFFFD) {
-					absent = append(absent, name)
-				}
-			}
-			sort.Strings(absent)
-			wantStr := implSerializeWith(parser, kind, expected)
-			// Three groups of reads per handle, in a per-case order, and inside a group the
-			// methods in a per-case order: whichever method a caller happens to use FIRST after
-			// SetSearch must already answer for the new query (a lazily refreshed list that one
-			// method forgets to refresh is healed by any other read).
-			groupAbsent := func(h *url.SearchParams, k int) bool {
-				for _, name := range absent {
-					var has bool
-					var get string
-					var all []string
-					for j := 0; j < 3; j++ {
-						switch (j + int(hsh>>20)) % 3 {
-						case 0:
-							has = h.Has(name)
-						case 1:
-							get = h.Get(name)
-						case 2:
-							all = h.GetAll(name)
-						}
-					}
-					if has || get != "" || len(all) != 0 {
-						ctx.Violate("after SetSearch a handle still answers for a name that is not in the new query", "Has=false", fmt.Sprintf("Has(%q)=%v Get=%q GetAll=%q", name, has, get, all), fmt.Sprintf("%s (handle %d, query %q)", where, k, u.Query()))
-						return true
-					}
-				}
-				return false
-			}
-			groupString := func(h *url.SearchParams, k int) bool {
-				if got := h.String(); got != wantStr {
-					ctx.Violate("after SetSearch a SearchParams handle does not equal the urlencoded parse of the new query", wantStr, got,
-						fmt.Sprintf("%s (handle %d of %d, query %q)", where, k, len(handles), u.Query()))
-					return true
-				}
-				return false
-			}
-			groupNames := func(h *url.SearchParams, k int) bool {
-				for _, p := range expected {
-					if strings.ContainsRune(p.Name, 0xFFFD) {
-						continue
-					}
-					var all []string
-					var has bool
-					if (hsh>>24)&1 == 0 {
-						all, has = h.GetAll(p.Name), h.Has(p.Name)
-					} else {
-						has = h.Has(p.Name)
-						all = h.GetAll(p.Name)
-					}
-					wantAll := (&refmodel.List{Pairs: expected}).GetAll(p.Name)
-					for j := range all {
-						all[j] = refmodel.Scalar(all[j])
-					}
-					if strings.Join(all, "\x00") != strings.Join(wantAll, "\x00") || !has {
-						ctx.Violate("after SetSearch GetAll/Has disagree with the urlencoded parse of the new query", fmt.Sprint(wantAll), fmt.Sprintf("GetAll=%q Has=%v", all, has), fmt.Sprintf("%s name %q (handle %d)", where, p.Name, k))
-						return true
-					}
-				}
-				return false
-			}
-			groups := []func(*url.SearchParams, int) bool{groupAbsent, groupString, groupNames}
-			for k, h := range handles {
-				for _, g := range [][3]int{{0, 1, 2}, {1, 2, 0}, {2, 0, 1}, {0, 2, 1}, {2, 1, 0}, {1, 0, 2}}[(hsh>>16)%6] {
-					if groups[g](h, k) {
-						return
-					}
-				}
+			if c12CheckHandles(ctx, u, handles, expected, seenNames, implSerializeWith(parser, kind, expected), where, hsh) {
+				return
 			}
 		default:
 			v := op.Arg(0)
